@@ -8,8 +8,8 @@ from paths import enumerate_paths, path_ends_in_return, TooManyPaths
 # field -> (why a path of next() may skip the step, guard): every skipping path must have taken the guard decision
 # guard = (substring of the switch discriminant, truth value it must have on the skipping path)
 STEP_EXCEPTIONS = {
-    'Integral.window': ('windowless mode (length 0): push guarded by !window.is_empty()', ('Window::<f64>::is_empty(&*self.window)', True)),
-    'ADI.window': ('windowless mode (length 0): push guarded by !window.is_empty()', ('Window::<f64>::is_empty(&*self.window)', True)),
+    'Integral.window': ('windowless mode (length 0): push guarded by !window.is_empty()', ('::is_empty(&*self.window)', True)),
+    'ADI.window': ('windowless mode (length 0): push guarded by !window.is_empty()', ('::is_empty(&*self.window)', True)),
     'SWMA.right_window': ('length 1 has no right half: early return when right_window.is_empty()', ('::is_empty(&*self.right_window)', True)),
     'SWMA.left_window': ('length 1: the early-return path of next() answers without touching the (single-element) left window', ('::is_empty(&*self.right_window)', True)),
     'KaufmanInstance.st_dev': ('stepped iff cfg.filter_period > 1 (a configuration constant): filtering disabled otherwise', ('Gt(*self.cfg.filter_period, 1)', False)),
